@@ -74,10 +74,8 @@ class Bitset(Sequence):
             raise ValueError("The bit length of value if larger than given length.")
 
         self.value = value
-        try:
-            self.length = length or math.floor(math.log(value, 2)) + 1
-        except Exception:
-            self.length = 0
+        # exact bit count; the float logarithm used before is off from 2^48 - 1 on
+        self.length = length or (value.bit_length() if value > 0 else 0)
 
     def __and__(self, other):
         b = Bitset(self.value & int(other))
